@@ -11,8 +11,13 @@
             left), and __nega_kv maps every operator the parser can produce to one with the complementary accept set
  RF6-own    every rewrite of __dnf leaves a tree: no node is reachable through two parent slots (symbolic execution of
             the pointer assignments of each branch), because free_dexpr releases every slot
+ RF-rewrite every rewrite of __dnf keeps the Boolean function: the routine is executed symbolically on all 72 trees with a
+            conjunction / disjunction root over value, opaque-conjunction and two-leaf-disjunction children (recursive calls
+            summarised by their contract: meaning kept, a conjunction may come back as a disjunction), truth tables compared
  RF2-act    parser actions in the generated parser: `!` toggles the negation flag; the scratch atom is cleared as a whole per atom
  RF2-gram   operator precedence lines of the grammar: OR < AND < NOT, %expect 0
+ RF2-lex    the date/time token of the scanner neither begins nor ends with a blank (first / last character sets of its pattern)
+            and the integer rule precedes it: `04 ` is the integer 04
  RF11-line  dgrep's proc_line writes a matching line (or, with -v, a non-matching one) exactly once, whole, plus newline
 """
 import os
@@ -524,6 +529,104 @@ def check_grammar(P, R):
         R.ob(rule, "scanner spellings %d" % len(spell), True)
 
 
+def _re_ends(pattern):
+    """(can be empty, set of members of {' ', '\t'} a match can start with, ... end with) for a flex pattern without definitions"""
+    try:
+        import re._parser as sre_parse
+    except ImportError:
+        import sre_parse
+    tree = sre_parse.parse(pattern)
+
+    def cls_has(items, ch):
+        neg = False
+        hit = False
+        for op, av in items:
+            op = str(op)
+            if op == "NEGATE":
+                neg = True
+            elif op == "LITERAL":
+                hit = hit or av == ord(ch)
+            elif op == "RANGE":
+                hit = hit or av[0] <= ord(ch) <= av[1]
+            elif op == "CATEGORY":
+                hit = hit or ("SPACE" in str(av) and "NOT" not in str(av))
+        return hit != neg
+
+    def ana(seq):
+        """-> (nullable, firsts, lasts) over the two blank characters"""
+        items = []
+        for op, av in seq:
+            op = str(op)
+            if op == "LITERAL":
+                st = {c for c in " \t" if av == ord(c)}
+                items.append((False, st, st))
+            elif op == "NOT_LITERAL":
+                st = {c for c in " \t" if av != ord(c)}
+                items.append((False, st, st))
+            elif op == "ANY":
+                items.append((False, {" ", "\t"}, {" ", "\t"}))
+            elif op == "IN":
+                st = {c for c in " \t" if cls_has(av, c)}
+                items.append((False, st, st))
+            elif op in ("MAX_REPEAT", "MIN_REPEAT"):
+                lo, hi, sub = av
+                n, f, l = ana(sub)
+                items.append((n or lo == 0, f, l))
+            elif op == "SUBPATTERN":
+                items.append(ana(av[-1]))
+            elif op == "BRANCH":
+                parts = [ana(b) for b in av[1]]
+                items.append((any(p_[0] for p_ in parts), set().union(*[p_[1] for p_ in parts]), set().union(*[p_[2] for p_ in parts])))
+            else:
+                raise AnalysisBroken("RF2-lex: regular expression operator %s not understood" % op)
+        nullable = all(i[0] for i in items)
+        firsts, lasts = set(), set()
+        for i in items:
+            firsts |= i[1]
+            if not i[0]:
+                break
+        for i in reversed(items):
+            lasts |= i[2]
+            if not i[0]:
+                break
+        return nullable, firsts, lasts
+    return ana(tree)
+
+
+def check_lexer(P, R):
+    """RF2-lex: a value token of the expression language never begins or ends with a blank.  The date/time token may contain
+    blanks (`2012-01-01 12:00:00`), and flex takes the longest match: if the token could also *end* in a blank, `04 ` in
+    `%d>=04 && ...` would be a date/time (3 characters) rather than the integer 04 (2 characters), and the atom would lose its
+    specifier.  Decided on the pattern itself: first / last character sets of the regular expression."""
+    rule = "RF2-lex"
+    ltxt = open(os.path.join(REPO, "src", "dexpr-scanner.l")).read()
+    body = ltxt.split("%%")
+    if len(body) < 3:
+        raise AnalysisBroken("%s: rule section of dexpr-scanner.l not found" % rule)
+    rules = body[1]
+    m = re.search(r"^(\S[^\n]*?)\t\{[^}]*?RETURN_TOKEN\(TOK_DATETIME\)", rules, re.M | re.S)
+    if not m:
+        raise AnalysisBroken("%s: the rule returning TOK_DATETIME was not found" % rule)
+    pat = m.group(1).strip()
+    nullable, firsts, lasts = _re_ends(pat)
+    if nullable:
+        R.finding(rule, None, "date/time token", "the date/time pattern `%s` matches the empty string" % pat, file="src/dexpr-scanner.l", line=1)
+    if not firsts and not lasts:
+        R.ob(rule, "the date/time token `%s` neither begins nor ends with a blank" % pat, True)
+    else:
+        R.finding(rule, None, "date/time token ends in a blank" if lasts else "date/time token begins with a blank",
+                  "the date/time pattern `%s` can %s with a blank; flex prefers the longest match, so a number followed by a blank is lexed "
+                  "as a date/time instead of an integer: `dgrep '%%d>=04 && %%d>25'` matches nothing" % (pat, "end" if lasts else "begin"),
+                  file="src/dexpr-scanner.l", line=1)
+    # digits alone are an integer: the integer rule comes first (ties go to the earlier rule)
+    pi, pd = rules.find("RETURN_TOKEN(TOK_INT)"), rules.find("RETURN_TOKEN(TOK_DATETIME)")
+    if 0 <= pi < pd:
+        R.ob(rule, "the integer rule precedes the date/time rule", True)
+    else:
+        R.finding(rule, None, "rule order", "the integer rule must precede the date/time rule (equal-length matches go to the earlier rule)",
+                  file="src/dexpr-scanner.l", line=1)
+
+
 def check_actions(P, R):
     """parser actions, read from the generated parser as compiled into dgrep: `!` toggles the node's negation flag (so that a
     double negation cancels), and the static scratch atom is cleared as a whole before every atom (the bare-value production
@@ -642,13 +745,44 @@ def check_proc_line(P, R):
         R.finding(rule, fn, "newline", "the terminating newline (overwritten by the reader) must be stored back before writing")
 
 
+def check_rewrites(P, R):
+    """RF-rewrite (rules/dnfsym.py): symbolic execution of __dnf on all 72 small tree shapes; the Boolean function at every exit
+    equals the function at the entry"""
+    import dnfsym
+    rule = "RF-rewrite"
+    tu = _tu(P)
+    fn = tu.func("__dnf")
+    if fn is None:
+        raise AnalysisBroken("__dnf vanished")
+    E = {k: tu.enum_value(k) for k in ("DEX_UNK", "DEX_VAL", "DEX_CONJ", "DEX_DISJ")}
+    if None in E.values():
+        raise AnalysisBroken("%s: node type enumerators not found" % rule)
+    try:
+        res = dnfsym.run(fn, E)
+    except dnfsym.Undecided as e:
+        raise AnalysisBroken("%s: __dnf left the fragment the symbolic execution understands (%s)" % (rule, e))
+    worlds = 0
+    for desc, problem, n in res:
+        worlds += n
+        if n == 0:
+            raise AnalysisBroken("%s: no exit reached for the shape `%s`" % (rule, desc))
+        if problem is None:
+            R.ob(rule, "shape `%s`: the Boolean function is kept on %d path(s)" % (desc, n), True)
+        else:
+            R.finding(rule, fn, "shape `%s`" % desc, "normalising an expression of the shape `%s` (x&y: a conjunction that its own "
+                      "normalisation may turn into a disjunction x.1|x.2) changes what it means: %s" % (desc, problem))
+    R.floor(rule, "tree shapes of the normaliser", len(res), 72)
+
+
 def check(P, R, tier):
+    check_rewrites(P, R)
     check_kv(P, R)
     check_eval(P, R)
     check_nega(P, R)
     check_ops(P, R)
     check_ownership(P, R)
     check_grammar(P, R)
+    check_lexer(P, R)
     check_actions(P, R)
     check_proc_line(P, R)
 
@@ -657,7 +791,8 @@ LEVEL = ("The expression is a program; its interpreter is decided structurally f
          "node union (value slot read only under a DEX_VAL test), Boolean structure of the evaluator, the negation push-down "
          "as tables (type involution, flag toggle folded over {0,1}, operator complement obtained by abstract "
          "interpretation of __nega_kv and constant folding of the matcher's cases over sign in {-1,0,1}), ownership of heap "
-         "nodes in each DNF rewrite by symbolic execution of the pointer assignments, grammar precedence, and the "
+         "nodes in each DNF rewrite by symbolic execution of the pointer assignments, preservation of the Boolean function by "
+         "every rewrite (symbolic execution of the normaliser on 72 tree shapes with truth-table comparison), grammar precedence, and the "
          "write-once discipline of dgrep's line output (CFG).")
 RULE = ("obligation = one kv read, one evaluator case, one negation table row, one operator x switch cell, one rewrite block "
         "x path, one grammar fact, one write site")
